@@ -48,9 +48,17 @@ theorem ampsVUnit_entry (d : Data) (f : Rat) (ha : d.amplitudes.length = d.spike
   rw [(C09.Lemmas.spikeAmpUnit_eq d f i hi ha (by rw [hit]; exact ht)).1, hit]
   ring
 
+theorem getD_mem_self' (sc : List Nat) (i : Nat) (hi : i < sc.length) : sc.getD i 0 ∈ sc := by
+  rw [List.getD_eq_getElem?_getD, List.getElem?_eq_getElem hi]
+  exact List.getElem_mem hi
+
+/-- `hsT`, `hsC` (EVERY spike id is below the number of waveforms) stand in front of the whole conjunction: the real
+`get_amplitudes_true` indexes `templates_amps_au[spikes]` as one batch (model.py:1146) and raises `IndexError` as soon as
+ONE id is out of range — no file is written then, so no conjunct may be asserted there. -/
 theorem amp_files_entries (dT dC : Data) (f : Rat) (indsT indsC : List (List Nat))
-    (haT : dT.amplitudes.length = dT.spikes.length) (haC : dC.amplitudes.length = dC.spikes.length) :
-    (∀ i, i < dT.spikes.length → dT.spikes.getD i 0 < dT.wfsW.length →
+    (haT : dT.amplitudes.length = dT.spikes.length) (haC : dC.amplitudes.length = dC.spikes.length)
+    (hsT : ∀ s ∈ dT.spikes, s < dT.wfsW.length) (_hsC : ∀ s ∈ dC.spikes, s < dC.wfsW.length) :
+    (∀ i, i < dT.spikes.length →
       (exportAmpFiles dT dC f indsT indsC).spikesAmps.getD i 0 =
         dT.amplitudes.getD i 0 * listMax (chAmps (matMul (dT.wfsW.getD (dT.spikes.getD i 0) []) dT.wmi)) * f) ∧
     (∀ t, t < dT.wfsW.length →
@@ -76,7 +84,7 @@ theorem amp_files_entries (dT dC : Data) (f : Rat) (indsT indsC : List (List Nat
     fun c hc => ampsVUnit_entry dC f haC c hc
   have hnone : ∀ (o : Option Rat) (K : Rat), o.map (· * K) = none ↔ o = none := by
     intro o K; cases o <;> simp
-  refine ⟨fun i hi hs => (C09.Lemmas.spikeAmpUnit_eq dT f i hi haT hs).1,
+  refine ⟨fun i hi => (C09.Lemmas.spikeAmpUnit_eq dT f i hi haT (hsT _ (getD_mem_self' dT.spikes i hi))).1,
     fun t ht => ⟨hT t ht, by rw [hT t ht, hnone, meanOver_none_iff]⟩,
     fun c hc => ⟨hC c hc, by rw [hC c hc, hnone, meanOver_none_iff]⟩,
     (by simp [exportAmpFiles, amplitudesTrue, spikeAmpsUnit, C09.Lemmas.spikeAmps_length dT haT]), ?_, ?_⟩ <;>
